@@ -39,8 +39,17 @@ pub fn op(rng: &mut Rng, depth: usize) -> Term {
         18 => tag(["vars", "locals", "globals"][rng.below(3)], vec![]),
         19 => tag("global", vec![nm(rng)]),
         _ => {
-            let k = rng.below(4);
-            let ops: Vec<Term> = (0..k).map(|_| op(rng, depth + 1)).collect();
+            // bodies of 0-7 operations; half of them start by linking one or two names to globals, so
+            // that reads, writes, removals and introspection through a link are common
+            let k = rng.below(8);
+            let mut ops: Vec<Term> = Vec::new();
+            if rng.chance(1, 2) {
+                ops.push(tag("global", vec![nm(rng)]));
+                if rng.chance(1, 3) {
+                    ops.push(tag("global", vec![nm(rng)]));
+                }
+            }
+            ops.extend((0..k).map(|_| op(rng, depth + 1)));
             match rng.below(6) {
                 0 => tag("errcall", vec![tl(ops)]),
                 1 => tag("badcall", vec![tl(ops), ti(rng.below(2) as i64)]),
@@ -177,7 +186,7 @@ pub fn gen(tier: &str, seed: u64) -> Gen {
         let ops: Vec<Term> = (0..len).map(|_| op(&mut rng, 0)).collect();
         cases.push(mk(ops));
     }
-    (cases, vec![("random sequences (1-40) of variable operations over 4 names x 3 indices at call depth 0-2, calls returning normally, by error, or rejected for their argument count".to_string(), n, false)])
+    (cases, vec![("random sequences (1-40) of variable operations over 4 names x 3 indices at call depth 0-2 (procedure bodies of 0-9 operations, half of them starting with `global`), calls returning normally, by error, or rejected for their argument count".to_string(), n, false)])
 }
 
 pub fn run(case: &Term) -> Term {
